@@ -1,7 +1,7 @@
 """C13: graceful shutdown loses no accepted call. Specs: Shutdown (Mechanism model of the accept loop, connection
 tasks and watch channel; safety + liveness under weak fairness; two named deviations), Gen_Shutdown (environment
 schedules), Trace_Shutdown (Contract-level validation of real runs in virtual time)."""
-import json, random, time
+import json, os, random, time
 from . import core, simple
 from .core import ToolError
 
@@ -45,6 +45,63 @@ def biased_schedules(rnd, n):
     return out
 
 
+def mech_validate(verdict, cov, ev, tag, label):
+    """Mechanism-level binding: the runs driven by TLC-exported schedules (fixed topology of MC_Shutdown.cfg), with the hook
+    events tonic emitted, must be behaviours of Shutdown.tla itself (Trace_ShutdownMech).  Shortfall = DRIFT."""
+    runs = [r for r in core.split_runs(ev) if r[0]['stim'].get('class') == 'tlc_schedule']
+    flat = [e for r in runs for e in r]
+    path = os.path.join(core.WORK, tag, f'{label}.mech.ndjson')
+    core.write_ndjson(path, flat)
+    res = core.tlc_mech_trace('Trace_ShutdownMech', path, name=f'{tag}_{label}_mech')
+    drift = 0
+    rounds = 0
+    while (res['matched'] != res['total'] or res['invariant_violated']) and rounds < 5:
+        rounds += 1
+        drift += 1
+        i = max(res['matched'], 0)
+        start = max(k for k in range(min(i, len(flat) - 1) + 1) if flat[k].get('e') == 'reset')
+        verdict.drift.append(f'Shutdown.tla cannot follow run {flat[start].get("run")} at its event {i - start + 1}: {json.dumps(flat[min(i, len(flat) - 1)])[:200]}'
+                             + (f' (model invariant {res["invariant_violated"]})' if res['invariant_violated'] else ''))
+        nxt = [k for k in range(start + 1, len(flat)) if flat[k].get('e') == 'reset']
+        if not nxt:
+            break
+        flat = flat[:start] + flat[nxt[0]:]          # drop the run the model rejected, validate the rest
+        core.write_ndjson(path, flat)
+        res = core.tlc_mech_trace('Trace_ShutdownMech', path, name=f'{tag}_{label}_mech')
+    # the binding must be able to reject: the same trace without its conn_closed events / with a moved broadcast is refused
+    probes = {}
+    for pname, mut in (('drop_conn_closed', lambda e: [x for x in e if not (x.get('e') == 'hook' and x.get('ev') == 'conn_closed')]),
+                       ('early_all_closed', lambda e: _move_all_closed(e))):
+        pp = os.path.join(core.WORK, tag, f'{label}.mech.{pname}.ndjson')
+        mutated = mut(flat)
+        if mutated == flat:
+            probes[pname] = 'not applicable'
+            continue
+        core.write_ndjson(pp, mutated)
+        r2 = core.tlc_mech_trace('Trace_ShutdownMech', pp, name=f'{tag}_{label}_{pname}')
+        if r2['matched'] == r2['total'] and not r2['invariant_violated']:
+            raise ToolError(f'mechanism trace validation accepted the corrupted trace {pname}: the binding is vacuous')
+        probes[pname] = f'rejected at event {r2["matched"] + 1} of {r2["total"]}'
+    cov['mechanism_trace'] = {'runs': len(runs), 'events': res['total'], 'matched': res['matched'], 'tlc_states': res.get('tlc_states'),
+                              'runs_rejected': drift, 'corruption_probes': probes}
+    cov['mechanism_drift'] = f'{drift} runs are not behaviours of the Mechanism model'
+
+
+def _move_all_closed(ev):
+    """Move the first all_closed hook event that follows a conn_closed of its run to just before that conn_closed."""
+    out = list(ev)
+    for i, x in enumerate(out):
+        if x.get('e') == 'hook' and x.get('ev') == 'all_closed':
+            j = i - 1
+            while j >= 0 and out[j].get('e') != 'reset':
+                if out[j].get('e') == 'hook' and out[j].get('ev') == 'conn_closed':
+                    y = out.pop(i)
+                    out.insert(j, y)
+                    return out
+                j -= 1
+    return out
+
+
 def check(prop, tier, seed):
     t0 = time.time()
     core.build_harness()
@@ -81,12 +138,14 @@ def check(prop, tier, seed):
     stims += biased_schedules(rnd, 2000 if tier == 'thorough' else 300)
     ev, path = simple.run_lab('shutdown', stims, tag, 'schedules')
     simple.validate(prop, 'Trace_Shutdown', verdict, ev, path, 'schedules', cov, clause_filter=lambda c: c.startswith('C13.') or c in ('NoPanic', 'NoHang'))
+    mech_validate(verdict, cov, ev, tag, 'schedules')
     cov['samples'].append({'family': 'schedules', 'stimulus': simple.sample_of(stims)})
     return simple.finish(prop, tier, seed, verdict, cov, mc, t0,
                          ['stimuli are applied one at a time with a quiescence barrier, i.e. the real runs cover the model behaviours in which the server reacts completely between two environment steps',
-                          '"all connections have closed" is observed through handler completion and client drops (the server side of a connection is not observable without hooks)',
+                          'the server side of each connection (task started / saw the signal / aged / finished) and of the accept loop is observed through the events of feature verif-hooks',
+                          'Mechanism-level trace validation covers the TLC-exported schedules (fixed topologies); the biased random schedules are validated at Contract level only',
                           'virtual time, single-threaded runtime; fragmentation quanta vary per schedule'],
-                         'tlc MC_Shutdown*.cfg, Gen_Shutdown.cfg (-simulate); vh shutdown; tlc Trace_Shutdown.cfg')
+                         'tlc MC_Shutdown*.cfg, Gen_Shutdown.cfg (-simulate); vh shutdown; tlc Trace_Shutdown.cfg; tlc Trace_ShutdownMech.cfg')
 
 
 def replay(prop, path):
